@@ -393,6 +393,20 @@ func (w *vprWorld) step(b *vprBuilt, c *vprCase) (string, string) {
 			if valid {
 				return fmt.Errorf("announcement not deferred")
 			}
+		case "Announce":
+			// the duplicate guard of cosiSendAnnouncement: a batch that passes prepareAnnouncement (current
+			// round 1, same day, before the cut-off) while a member is guarded by the verifier of an
+			// installed proposal of the same round younger than the gap
+			b.chain.State = &ChainState{
+				CacheRound: &CacheRound{NodeId: w.node.IdForNetwork, Number: 1, Timestamp: w.t0, References: new(common.RoundLink),
+					Snapshots: []*common.Snapshot{{NodeId: w.node.IdForNetwork, RoundNumber: 1, Timestamp: w.t0}}},
+				FinalRound: &FinalRound{NodeId: w.node.IdForNetwork, Number: 0},
+			}
+			b.chain.CachePool = make(chan *CosiAction, 2)
+			s := &common.Snapshot{Version: common.SnapshotVersionCommonEncoding, NodeId: w.node.IdForNetwork,
+				Timestamp: w.t0 + w.unit/2, Transactions: hashes(vprStrs(c.O["txs"]))}
+			return b.chain.cosiSendAnnouncement(&CosiAction{PeerId: w.node.IdForNetwork, Action: CosiActionSelfEmpty,
+				Snapshot: s, data: &CosiChainData{FoundTxs: map[crypto.Hash]*common.VersionedTransaction{}}})
 		default:
 			return fmt.Errorf("unknown op %s", op)
 		}
